@@ -223,6 +223,11 @@ def api_case(rec, ci, li, tkind, suffix, mask, method, layout, chunk, seed, prec
     if chunk:
         da, td = da.chunk({"x": tuple(chunk)}), (td.chunk({"x": tuple(chunk)}) if "x" in td.dims else td)
     kw = dict(target_data=td, mask_edges=mask, method=method)
+    # documented defaults left out in part of the cases: mask_edges=True, method="linear"
+    if mask and (ci + li) % 2:
+        del kw["mask_edges"]
+    if method == "linear" and (ci + li + (0 if suffix is None else 1)) % 3 == 0:
+        del kw["method"]
     if suffix is not None:
         kw["suffix"] = suffix
     if tkind == "nd":
